@@ -46,7 +46,9 @@ impl ExternalFile {
         let entry_ct = reader.dword()?;
         reader.skip_reserved(8)?;
 
-        let mut results = Vec::with_capacity(entry_ct as usize);
+        // The entry count is only declared; every entry takes at least 14
+        // bytes, so never reserve more than the chunk can actually hold.
+        let mut results = Vec::with_capacity((entry_ct as usize).min(data.len() / 14));
         for _ in 0..entry_ct {
             let id = ExternalFileId::new(reader.dword()?);
             reader.skip_reserved(8)?;
